@@ -428,6 +428,9 @@ package lang
 //@ ghost $isName string
 //@ ghost $nmatch int
 //@ ghost $nRuns int
+//@ ghost $nRun int
+//@ ghost $nSkip int
+//@ ghost $rsErr error
 //@ ghost $prErr error
 //@ ghost $ranBlock bool
 //@ ghost $lastCell *Cell
@@ -1000,6 +1003,17 @@ package lang
 //@   assert[C02] pattern-is-the-rules-own: arg1 == rule.Pattern && rule.Pattern != nil @ Evaluator.evalExpr
 //@   assert[C02] body-runs-iff-pattern-absent-or-truthy: arg1 == rule.Body && (rule.Pattern == nil || ($lastExprArg == rule.Pattern && $lastTruthy)) @ Evaluator.evalStatement
 //@   loop 0 invariant protocol: evInv(e, old(e.stackTop)) && e.ruleRoot == old(e.ruleRoot) && !$sawNext && e.evalDepth == old(e.evalDepth)
+//@   init $rsErr = nil
+//@   after Evaluator.evalExpr: $rsErr = ret1
+//@   after Evaluator.evalStatement: $rsErr = ret0
+//@   loop 0 invariant[C02,C07] nothing-has-ended-abnormally-so-far: $rsErr == nil
+//@   ensures[C01,C02,C07,C11] next-ends-the-list-normally-any-other-outcome-is-passed-on-unchanged: ($rsErr == errNext ==> result == nil) && ($rsErr != nil && $rsErr != errNext ==> result == $rsErr)
+//@   init $nRun = 0
+//@   init $nSkip = 0
+//@   after Evaluator.evalStatement: $nRun = $nRun + 1
+//@   after Evaluator.evalExpr: $nSkip = (ret1 == nil && !specTruthy(ret0.Value) ? $nSkip + 1 : $nSkip)
+//@   loop 0 invariant[C02] every-rule-so-far-was-run-or-had-a-falsy-pattern: $nRun + $nSkip == rangeindex + 1 && $nRun >= 0 && $nSkip >= 0
+//@   exit[C02] every-rule-is-run-unless-its-pattern-is-falsy: result == nil && $rsErr == nil ==> $nRun + $nSkip == len(rules)
 
 //@ func Evaluator.evalPatternRules [C01,C02,C08,C11]
 //@   modifies valueHeap, e.stackTop, e.returnVal, e.evalDepth, e.ruleRoot
